@@ -24,6 +24,27 @@ type Case struct {
 	// OneError: the bundle was made invalid by exactly one injected error, so the compile error
 	// text must not depend on the order in which the files are added
 	OneError bool `json:"one_error,omitempty"`
+	// GlobalsSplit: the globals reach the bundle through two sources (two maps, or a map and a file)
+	GlobalsSplit bool `json:"globals_split,omitempty"`
+
+	held [2]data.Map // the application's own globals maps: the same objects for every bundle built from this case
+}
+
+// HeldGlobals returns the application's globals maps for this case: built once, handed to every
+// bundle made from the case (a library that adopts or mutates a caller's map then shows it).
+// With GlobalsSplit the entries are divided between two maps, otherwise the second is empty.
+func (c *Case) HeldGlobals() (data.Map, data.Map) {
+	if c.held[0] == nil {
+		c.held[0], c.held[1] = data.Map{}, data.Map{}
+		for i, kv := range c.Globals {
+			if c.GlobalsSplit && i%2 == 1 {
+				c.held[1][kv.K] = kv.V.Value()
+			} else {
+				c.held[0][kv.K] = kv.V.Value()
+			}
+		}
+	}
+	return c.held[0], c.held[1]
 }
 
 // Entry names a template and the data/ij set to render it with.
